@@ -428,3 +428,13 @@ func (f *FS) CopyTree() *FS {
 	})
 	return &FS{Root: d, FailWriteAt: -1}
 }
+
+// Watcher returns a file system object that can journal the same directory tree independently: natively a second
+// view of the same root whose TraceStart/Mark/TraceStop use the strace journal (file-system calls and fsyncs as the
+// kernel saw them) while f keeps the journal reported through writer seams; under the engine f itself.
+func (f *FS) Watcher() *FS {
+	if f.sym {
+		return f
+	}
+	return &FS{Root: f.Root, FailWriteAt: -1, FailOpAt: -1}
+}
